@@ -83,30 +83,37 @@ Section LRange.
     min_iter o <= max_iter o -> solve_span lg ld [] start end_ sel o s = (s, inl (LExn (SolutionError None))).
   Proof. intros H. unfold linker_solve_span_M. replace (max_iter o <? min_iter o) with false by lia. reflexivity. Qed.
 
-  (* a start / end label the span does not hold: KeyError before any period is solved, nothing changes *)
+  (* a start / end label the span does not hold: KeyError before any period is solved, nothing changes (the start is
+     settled before the end is looked at — iter_periods since fix 7cd6323) *)
   Theorem linker_solve_span_unknown_start lg ld span x end_ sel o s :
     min_iter o <= max_iter o -> span <> [] -> locate x = LFail ->
-    (end_ <> None \/ (ld < length span)%nat) ->
     solve_span lg ld span (Some x) end_ sel o s = (s, inl (LExn KeyError)).
   Proof.
-    intros H Hne Hx He. unfold linker_solve_span_M, iter_periods_M. replace (max_iter o <? min_iter o) with false by lia.
-    destruct span as [|y span]; [contradiction|]. cbn [length Nat.eqb].
-    assert (Hen : exists en, match end_ with Some z => Some z | None => py_get (y :: span) (-1 - Z.of_nat (leads (ldesc lg ld))) end = Some en).
-    { destruct end_ as [z|]; [eauto|]. destruct He as [He|He]; [contradiction|]. cbn [leads].
-      unfold py_get. rewrite py_pos_neg by (cbn [length] in *; lia).
-      destruct (nth_error (y :: span) (Z.to_nat (-1 - Z.of_nat ld + Z.of_nat (length (y :: span))))) eqn:E; [eauto|].
-      apply nth_error_None in E. cbn [length] in *. lia. }
-    destruct Hen as [en Hen]. rewrite Hen, Hx. reflexivity.
+    intros H Hne Hx. unfold linker_solve_span_M, iter_periods_M. replace (max_iter o <? min_iter o) with false by lia.
+    destruct span as [|y span]; [contradiction|]. cbn [length Nat.eqb]. rewrite Hx. reflexivity.
   Qed.
 
-  Theorem linker_solve_span_unknown_end lg ld span start y sel o s st :
+  Theorem linker_solve_span_unknown_end lg ld span start y sel o s :
     min_iter o <= max_iter o -> span <> [] -> locate y = LFail ->
-    match start with Some x => Some x | None => py_get span (Z.of_nat lg) end = Some st ->
+    match start with None => (lg < length span)%nat | Some x => locate x <> LFail end ->
     solve_span lg ld span start (Some y) sel o s = (s, inl (LExn KeyError)).
   Proof.
     intros H Hne Hy Hst. unfold linker_solve_span_M, iter_periods_M. replace (max_iter o <? min_iter o) with false by lia.
-    destruct span as [|z span]; [contradiction|]. cbn [length Nat.eqb lags]. rewrite Hst, Hy.
-    destruct (locate st); reflexivity.
+    destruct span as [|z span]; [contradiction|]. cbn [length Nat.eqb lags].
+    destruct start as [x|].
+    - destruct (locate x) eqn:Ex; [| |contradiction]; cbv zeta; rewrite Hy; reflexivity.
+    - replace (S (length span) <=? lg)%nat with false by (symmetry; apply Nat.leb_gt; cbn [length] in Hst; lia).
+      cbv zeta. rewrite Hy. reflexivity.
+  Qed.
+
+  (* default start when the linker's lags reach the end of the span: IndexError (span[self.lags] does not exist), nothing changes *)
+  Theorem linker_solve_span_default_start_outside lg ld span end_ sel o s :
+    min_iter o <= max_iter o -> span <> [] -> (length span <= lg)%nat ->
+    solve_span lg ld span None end_ sel o s = (s, inl (LExn IndexError)).
+  Proof.
+    intros H Hne Hl. unfold linker_solve_span_M, iter_periods_M. replace (max_iter o <? min_iter o) with false by lia.
+    destruct span as [|z span]; [contradiction|]. cbn [length Nat.eqb lags].
+    replace (S (length span) <=? lg)%nat with true by (symmetry; apply Nat.leb_le; cbn [length] in Hl; lia). reflexivity.
   Qed.
 
   (* solve(start, end) = the guard, then ONE solve_t per position from `start` to `end` inclusive, in span order, each
@@ -214,7 +221,7 @@ Section LContain.
     - rewrite (linker_solve_nil num sub absf ltb zero sev pre ebefore eafter post sel o s Hmm) in H1. inversion H1; subst.
       cbn [app]. rewrite (linker_solve_cons num sub absf ltb zero sev pre ebefore eafter post sel o t ps2 s1 Hmm), H2.
       split; [reflexivity|].
-      pose proof (solve_t_other_periods_untouched num sub absf ltb zero sev pre ebefore eafter post sel o t s1) as F.
+      pose proof (solve_t_other_periods_untouched_M num sub absf ltb zero sev pre ebefore eafter post sel o t s1) as F.
       rewrite H2 in F. exact F.
     - rewrite (linker_solve_cons num sub absf ltb zero sev pre ebefore eafter post sel o a r s Hmm) in H1.
       cbn [app]. rewrite (linker_solve_cons num sub absf ltb zero sev pre ebefore eafter post sel o a (r ++ t :: ps2) s Hmm).
@@ -282,12 +289,19 @@ Section LErrors.
      submodel's _evaluate: if those do not react to them, every policy ('raise', 'skip', 'ignore', 'replace', anything)
      and either flag give the same run — same values, same statuses ('.' / 'F' only), same counts, same outcome.
      Non-finite check values are simply compared: there is no 'E' / 'S' stamping and no replacement by the linker. *)
-  Theorem linker_errors_only_handed_down sel o em cf t s : solve_t sel (set_errors o em cf) t s = solve_t sel o t s.
+  Lemma body_errors_only_handed_down sel o em cf t s :
+    linker_solve_t_body num sub absf ltb zero sev pre ebefore eafter post sel (set_errors o em cf) t s
+    = linker_solve_t_body num sub absf ltb zero sev pre ebefore eafter post sel o t s.
   Proof.
-    unfold Linker.linker_solve_t_M. destruct (get_check_values num zero (sel_ids num sel s) t s) as [cur|e]; [|reflexivity].
+    unfold Linker.linker_solve_t_body. destruct (get_check_values num zero (sel_ids num sel s) t s) as [cur|e]; [|reflexivity].
     destruct (zero_iters num (sel_ids num sel s) t (l_subs s)) as [subs1 [e|]]; [reflexivity|].
     rewrite (run_hook_set_errors pre) by exact Hpre. destruct (run_hook pre _ o t 0%nat (LPre t) _) as [s1 [e|]]; [reflexivity|].
     change (max_iter (set_errors o em cf)) with (max_iter o). rewrite lloop_set_errors.
     destruct (lloop _ o t _ 1%nat s1 cur) as [s2 st k|s2 e]; reflexivity.
+  Qed.
+  Theorem linker_errors_only_handed_down sel o em cf t s : solve_t sel (set_errors o em cf) t s = solve_t sel o t s.
+  Proof.
+    unfold Linker.linker_solve_t_M. change (max_iter (set_errors o em cf)) with (max_iter o).
+    change (min_iter (set_errors o em cf)) with (min_iter o). rewrite body_errors_only_handed_down. reflexivity.
   Qed.
 End LErrors.
